@@ -52,7 +52,7 @@ class Case:
 @st.composite
 def strategy_(draw: Any) -> Case:
     traditional = draw(st.booleans())
-    feat = S.Features(bits_budget=250, big=False, max_defs=6, extensible=not traditional, ext_arrays=not traditional, alias_foreign_enum=False, base_ne_proto=True, subdirs=True, odd_file_names=True)
+    feat = S.Features(bits_budget=250, big=False, max_defs=6, extensible=not traditional, ext_arrays=not traditional, alias_foreign_enum=False, base_ne_proto=True, subdirs=True, odd_file_names=True, long_names=True)
     unit = draw(S.units(feat))
     for f in unit.files:
         if draw(st.booleans()):
